@@ -3,5 +3,5 @@
 From Coq Require Import ZArith Bool.
 From Bardolph Require Import Base.Range Num.SweepDefs.
 Open Scope Z_scope.
-Lemma sweep_time_true : all_range 262144 0 time_ok = true.
+Lemma sweep_time2_true : all_range 65536 131072 time_ok = true.
 Proof. vm_compute. reflexivity. Qed.
